@@ -107,8 +107,18 @@ where
     where
         T: Ord,
     {
-        let a = parse_filesize(&self.values[i].to_string()).unwrap_or(0);
-        let b = parse_filesize(&other.values[i].to_string()).unwrap_or(0);
+        let a_str = self.values[i].to_string();
+        let b_str = other.values[i].to_string();
+
+        // plain numbers, including negative and fractional results of expressions
+        if let (Ok(a), Ok(b)) = (a_str.parse::<f64>(), b_str.parse::<f64>()) {
+            if let Some(ord) = a.partial_cmp(&b) {
+                return ord;
+            }
+        }
+
+        let a = parse_filesize(&a_str).unwrap_or(0);
+        let b = parse_filesize(&b_str).unwrap_or(0);
 
         a.cmp(&b)
     }
